@@ -60,6 +60,46 @@ Theorem C06_contract_tx_conserves : forall U src jok gas value creation nz z tr 
 Proof. exact contract_tx_conserves. Qed.
 Print Assumptions C06_contract_tx_conserves.
 
+(* STAKE / UNSTAKE / UNSTAKEALL / AUTHCALL as the opcodes are observed (operands, registry facts): their ledger semantics
+   is Model.lower. One opcode on any ledger with any stack of open snapshots keeps the invariant (non-negative balances,
+   balances + stake + escrow + destroyed = W) for the current ledger and every open snapshot ... *)
+Theorem C06_opcode_conserves : forall U W e c, universe U -> oev_closed U e -> oev_wf e -> goodst U W c ->
+  goodst U W (exec_trace_st repaired (lower e) c).
+Proof. exact opcode_conserves. Qed.
+Print Assumptions C06_opcode_conserves.
+
+(* ... so a contract transaction whose EVM run is observed as ANY list of opcode-level events conserves, never increases
+   the sum of balances and keeps them non-negative. *)
+Theorem C06_observed_contract_tx_conserves : forall U src jok gas value creation nz z otr eok gu stale l,
+  universe U -> In src U -> Forall (oev_closed U) otr -> Forall oev_wf otr -> 0 <= gu ->
+  match stale with Some s => 0 <= s | None => True end -> nonneg l -> sched_ok U (sched l) ->
+  let l' := exec_tx repaired (contract_tx src jok gas value creation nz z (lower_trace otr) eok gu stale) l in
+  wealth U l' + burned l' = wealth U l + burned l /\ nonneg l' /\ sched_ok U (sched l') /\ sumU U (bal l') <= sumU U (bal l).
+Proof. exact observed_contract_tx_conserves. Qed.
+Print Assumptions C06_observed_contract_tx_conserves.
+
+(* STAKE: only the running contract's balance moves, by exactly what enters the stake; a pushed 1 with a non-zero
+   whole-token operand means exactly that many whole tokens were locked. *)
+Theorem C06_stake_op_exact : forall a amount hm l st,
+  let c' := exec_trace_st repaired (lower (OStake a amount hm)) (l, st) in
+  snd c' = st /\ sched (fst c') = sched l /\ burned (fst c') = burned l /\
+  (forall x, x <> a -> bal (fst c') x = bal l x) /\
+  bal l a - bal (fst c') a = locked (fst c') - locked l /\
+  (op_result (OStake a amount hm) l = Some 1 -> 0 < whole_of amount -> locked (fst c') - locked l = whole_of amount * e18).
+Proof. exact stake_op_exact. Qed.
+Print Assumptions C06_stake_op_exact.
+
+(* UNSTAKE (repaired): no balance moves; what leaves the stake is exactly what enters the escrow; a pushed 1 means exactly
+   the whole tokens of the operand (or the whole stake for an operand >= 2^64 - 1 tokens) were released. *)
+Theorem C06_unstake_op_exact : forall o a amount stake hm now l st, 0 <= amount -> 0 <= stake ->
+  let c' := exec_trace_st repaired (lower (OUnstake o a amount stake hm now)) (l, st) in
+  snd c' = st /\ bal (fst c') = bal l /\ burned (fst c') = burned l /\
+  locked l - locked (fst c') = sched_total (sched (fst c')) - sched_total (sched l) /\
+  (op_result (OUnstake o a amount stake hm now) l = Some 1 ->
+   locked l - locked (fst c') = unstake_whole amount stake * e18).
+Proof. exact unstake_op_exact. Qed.
+Print Assumptions C06_unstake_op_exact.
+
 (* [burned] grows only by a contract naming itself as beneficiary of SELFDESTRUCT (and the operator-node charge,
    by definition of exec_tx): a trace without self-suicide destroys nothing. *)
 Theorem C06_burn_only_self_suicide : forall var tr l, Forall no_self_suicide tr -> burned (exec_trace var tr l) = burned l.
@@ -81,6 +121,15 @@ Theorem C06_reward_exact : forall U h rs l,
   sched_total (sched l') = sched_total (sched l) + minted (OReward h rs).
 Proof. exact reward_exact. Qed.
 Print Assumptions C06_reward_exact.
+
+(* The reward specification (exact shares of the per-block reward T, Model.reward_weights) never hands out more than T,
+   whoever proposes, whatever the proposer and group stakes and however accounts overlap; the check compares every
+   scheduled amount of every reward block with this specification (float64 error bound stated in Harness.close). *)
+Theorem C06_reward_spec_bounded : forall castor proposers validators,
+  stakes_nonneg proposers -> stakes_nonneg validators ->
+  sum_snd (reward_weights castor proposers validators) <= reward_weight_total proposers validators.
+Proof. exact reward_weights_bounded. Qed.
+Print Assumptions C06_reward_spec_bounded.
 
 (* History version: the only source of new tokens over any sequence of operations is the scheduled rewards. *)
 Theorem C06_history : forall U ops l, universe U -> Forall (op_closed U) ops -> Forall op_wf ops ->
